@@ -22,7 +22,8 @@ from vlib.front import unparse, dotted, const_value, AnchorMissing
 from vlib.shape import Shape, Space, Ix, Q, D, BoolT, StrT, NoneT, SizeOf, UNK, is_unk, Arr, Rec, Tup, ListT, DictT, B
 from obligations.shape_tables import (model_attrs, COMMON_SIGS, M, AR, Tmpl, Clu, Chan, Spike, KA, CNT)
 
-FLOOR = 15
+FLOOR = 9          # decided obligations below this = the analysis lost its footing (exit 2); clean tree: 25
+RULES = ('C07.A0', 'C07.A1', 'C07.A2', 'C07.A3', 'C07.K1')          # every obligation group must report (holds / violated / undecided): a group that vanishes silently is an analysis error
 EXPLANATION = ('shape engine over the grouping utilities of phylib/io/array.py and the model queries built on them (key / value kinds, '
                'consistency of the permutation applied to ids and labels, table-vs-query index spaces, mean-vs-sum dimension), plus '
                'structural rules pairing keys with boundary ranges and requiring a stable sort')
